@@ -11,7 +11,8 @@ functions, and a key that denotes the root directory itself has no metadata path
   components, an absolute key replaces `root`, `..` is kept lexically and resolved by the operating
   system when the path is used (modelled as popping one component; symbolic links are not modelled);
   `.parent` / `.name` are lexical.
-* "absent" covers both ENOENT and ENOTDIR (an ancestor that is a regular file).
+* "absent" covers both ENOENT and ENOTDIR (an ancestor that is a regular file), except in `unlink`, where
+  `FileStore.remove` ignores only the former.
 -/
 import LiquerModel.StoreCore
 import LiquerModel.Paths
@@ -77,6 +78,9 @@ def metaKeyOK (key : List Char) : Bool := compsMetaOK (splitSlash key)
 def pathOf (root : Path) (key : List Char) : Path := pathOfC root (splitSlash key)
 def metaPathOf (root : Path) (key : List Char) : Path := metaPathOfC root (splitSlash key)
 
+/-- a key string as the component list the store models take (`""` is the root key `[]`) -/
+def keyOfString (key : List Char) : Key := if key.isEmpty then [] else splitSlash key
+
 /-- `p` is `root` or lies below it -/
 def within (root p : Path) : Bool := root.isPrefixOf p
 
@@ -109,10 +113,17 @@ def write (fs : PFS) (p : Path) (n : PNode) : Except StoreErr PFS :=
   | some .dir => .error .other
   | _ => if fs.isDirB p.dropLast then .ok (fs.set p n) else .error .other
 
-/-- `unlink`: `.keyNotFound` stands for `FileNotFoundError` (callers ignore it) -/
+/-- some proper ancestor of `p` is a regular file (ENOTDIR) -/
+def fileOnWay (fs : PFS) (p : Path) : Bool :=
+  (ancestors p).any (fun a => match fs.get a with
+    | some .dir => false
+    | some _ => true
+    | none => false)
+
+/-- `unlink`: `.keyNotFound` stands for `FileNotFoundError` (callers ignore it); `NotADirectoryError` is not ignored -/
 def unlink (fs : PFS) (p : Path) : Except StoreErr PFS :=
   match fs.get p with
-  | none => .error .keyNotFound
+  | none => if fs.fileOnWay p then .error .other else .error .keyNotFound
   | some .dir => .error .other
   | some _ => .ok (fs.erase p)
 
